@@ -137,6 +137,25 @@ class C07(Prop):
             w_lib = np.asarray(rich.rule(length))
             out, abserr, hout = rich(seq.copy(), steps.copy())
             out, abserr, hout = np.asarray(out), np.asarray(abserr), np.asarray(hout)
+            # the same configuration on an object that has handled shorter sequences before: the mapping
+            # sequence -> outputs is a function of the configuration, not of what the object saw earlier
+            reused = None
+            if length >= 2:
+                rich2 = Richardson(step_ratio=ratio, step=step, order=order, num_terms=num_terms)
+                for k in (1, 2):
+                    if k < length:
+                        rich2.rule(k)
+                        rich2(seq[:k].copy(), steps[:k].copy())
+                reused = [np.asarray(v) for v in rich2(seq.copy(), steps.copy())]
+        if reused is not None:
+            ctx.count('reuse clause asserted%s' % (' (earlier sequence shorter than num_terms+1)'
+                                                    if num_terms > 0 else ''))
+            for nm, u, v in zip(('result', 'abserr', 'steps'), (out, abserr, hout), reused):
+                if u.shape != v.shape or not np.array_equal(u, v, equal_nan=True):
+                    raise Violation('reuse', '%s: %s differs on an object that was first given the 1- and 2-term '
+                                    'prefixes (shapes %s / %s)' % (tag, nm, u.shape, v.shape), field=nm)
+            if rich2.num_terms != num_terms:
+                raise Violation('reuse', '%s: num_terms is %r after handling short sequences' % (tag, rich2.num_terms))
 
         ctx.count('ratio=%s%s' % (case.get('ratio_kind'), '/complex' if cplx_ratio else ''))
         ctx.count('used=%d' % used)
